@@ -119,6 +119,11 @@ pub struct CtlObserver {
     /// the guest's own store to the contested cell that the instruction at this boundary is about to perform
     pending_store: Vec<(u32, crate::harness::decode::ByteStore)>,
     pub guest_stores_to_contested_cell: u64,
+    /// delivery iteration and value of the last line that names the contested cell
+    contested_line: Option<(u64, u8)>,
+    /// the guest stored to the contested cell in or after the iteration in which that line was delivered: an implementation
+    /// that acts on a queued line a few polls later (in order, exactly once - legal) orders the two the other way round
+    contested_store_after: bool,
 }
 
 impl CtlObserver {
@@ -143,6 +148,22 @@ impl CtlObserver {
             paused_at_delivery: false,
             pending_store: vec![],
             guest_stores_to_contested_cell: 0,
+            contested_line: None,
+            contested_store_after: false,
+        }
+    }
+
+    /// What the contested cell may hold once every delivered line has had its polls: exactly the reference's value when no
+    /// guest store came in or after the delivery iteration of the last line naming it; otherwise the line's value or the
+    /// guest's, whichever an implementation ordered last.
+    pub fn contested_ok(&self, real: u8) -> bool {
+        let model = self.model.pokes.get(&CONTESTED_CELL).copied().unwrap_or(0);
+        if real == model {
+            return true;
+        }
+        match self.contested_line {
+            Some((_, v)) if self.contested_store_after => real == v || real == 0,
+            _ => false,
         }
     }
 
@@ -150,6 +171,9 @@ impl CtlObserver {
         for (a, v) in &self.model.pokes {
             // port / timer registers are never poke targets of generated scripts
             let real = cpu.bus.read(*a).unwrap_or(0);
+            if *a == CONTESTED_CELL && self.contested_ok(real) {
+                continue;
+            }
             if real != *v {
                 return Err(Failure::new("c18.poke", format!("{}: byte at {:06x} is {:02x}, the lines delivered so far make it {:02x}", when, a, real, v)));
             }
@@ -177,6 +201,11 @@ impl Observer for CtlObserver {
                     let cur = self.model.pokes.get(&a).copied().unwrap_or(0);
                     self.model.pokes.insert(a, st.resolve(cur, p.ccr));
                     self.guest_stores_to_contested_cell += 1;
+                    if let Some((it, _)) = self.contested_line {
+                        if p.iter >= it {
+                            self.contested_store_after = true;
+                        }
+                    }
                 }
             }
         }
@@ -261,6 +290,10 @@ impl Observer for CtlObserver {
                         if let (Some(a), Some(v)) = (hex(f[1], u32::MAX as u64), hex(f[2], 0xff)) {
                             if a as u32 == SEQ_CELL {
                                 self.seq_sent.push(v as u8);
+                            }
+                            if a as u32 == CONTESTED_CELL {
+                                self.contested_line = Some((row.iter, v as u8));
+                                self.contested_store_after = false;
                             }
                         }
                     }
@@ -510,6 +543,10 @@ impl Property for C18 {
             load_guest(&mut exp, &g);
             let _ = exp.cpu.verif_init_registers();
             for (a, v) in &obs.model.pokes {
+                // the contested cell: where the order of a line and a guest store is the implementation's to choose, what it
+                // chose is taken over (see `contested_ok`)
+                let real_c = run.sim.cpu.bus.read(CONTESTED_CELL).unwrap_or(0);
+                let v = if *a == CONTESTED_CELL && obs.contested_ok(real_c) { &real_c } else { v };
                 match *a {
                     0..=0xff => exp.cpu.bus.exception_handling_vector[*a as usize] = *v,
                     0x400000..=0x5fffff => exp.cpu.bus.dram[(*a - 0x400000) as usize] = *v,
